@@ -64,18 +64,25 @@ type proc struct {
 	kv      map[string]any
 	done    bool
 	started bool
+	// arrivals counts the yields reached; seen is how many of them the driver has been told about.
+	// The position of a process is this state, not a message: a step that outlives the watchdog
+	// (blocked inside the implementation, or merely slow on a loaded machine) is reported by the
+	// next Step / Await once it does arrive, and never mistaken for the result of a later step.
+	arrivals int
+	seen     int
+	doneSeen bool
+	panicked any
 }
 
 // Sched controls a set of processes.
 type Sched struct {
 	mu       sync.Mutex
 	procs    map[string]*proc
-	reports  chan Report
+	notify   chan struct{}
 	events   []Event
 	seq      int
 	Watchdog time.Duration
 	dead     bool
-	pending  []Report
 	// FreeRun makes Yield record-only (plus optional jitter) instead of parking.
 	FreeRun bool
 	Jitter  func(point string)
@@ -85,11 +92,18 @@ type Sched struct {
 func New() *Sched {
 	s := &Sched{
 		procs:    map[string]*proc{},
-		reports:  make(chan Report, 1024),
+		notify:   make(chan struct{}, 1),
 		Watchdog: 2 * time.Second,
 	}
 	verifhook.Sink = s.sink
 	return s
+}
+
+func (s *Sched) wake() {
+	select {
+	case s.notify <- struct{}{}:
+	default:
+	}
 }
 
 func kvmap(kv []any) map[string]any {
@@ -127,8 +141,9 @@ func (s *Sched) sink(ctx context.Context, blocking bool, point string, kv ...any
 	p.parked = true
 	p.point = point
 	p.kv = m
+	p.arrivals++
 	s.mu.Unlock()
-	s.reports <- Report{Proc: id, Point: point, KV: m}
+	s.wake()
 	if cont := <-p.resume; !cont {
 		runtime.Goexit()
 	}
@@ -150,27 +165,18 @@ func (s *Sched) Spawn(ctx context.Context, id string, fn func(ctx context.Contex
 		defer func() {
 			r := recover()
 			s.mu.Lock()
+			if r == nil && exited {
+				// runtime.Goexit (process killed): nothing to report
+				p.doneSeen = true
+			}
 			p.done = true
 			p.parked = false
-			dead := s.dead
+			p.panicked = r
 			s.mu.Unlock()
-			if dead {
-				return
-			}
-			if r != nil {
-				s.reports <- Report{Proc: id, Returned: true, Panic: r}
-			} else if exited {
-				// runtime.Goexit (process killed): nothing to report
-				return
-			}
+			s.wake()
 		}()
 		fn(pctx)
 		exited = false
-		s.mu.Lock()
-		p.done = true
-		p.parked = false
-		s.mu.Unlock()
-		s.reports <- Report{Proc: id, Returned: true}
 	}()
 }
 
@@ -185,69 +191,86 @@ func (s *Sched) State(id string) (point string, parked bool, done bool) {
 	return p.point, p.parked, p.done
 }
 
-// Step releases process id from its yield point and waits for its next report.
-// Reports of other processes arriving meanwhile (a process woken by this step
-// reaching its next yield) are queued and returned by later Steps / Drain.
+// Step releases process id from its yield point and waits for it to reach the next
+// one (or to return). If the previous step of id ended in a watchdog time-out and the
+// process has arrived since, that arrival is what is reported (nothing is released):
+// every yield reached is reported exactly once, in order.
 func (s *Sched) Step(id string) Report {
 	s.mu.Lock()
 	p := s.procs[id]
-	if p == nil || p.done || !p.parked {
+	if p == nil {
 		s.mu.Unlock()
 		return Report{Proc: id, Stuck: true}
 	}
+	if r, ok := s.news(p); ok {
+		s.mu.Unlock()
+		return r
+	}
+	if p.done {
+		s.mu.Unlock()
+		return Report{Proc: id, Stuck: true}
+	}
+	if !p.parked {
+		// still inside the implementation since an earlier step: give it another watchdog period
+		s.mu.Unlock()
+		return s.Await(id)
+	}
 	p.parked = false
 	p.point = ""
-	// drop reports of earlier steps of this process that nobody consumed (a step
-	// that ended in a watchdog time-out reports late)
-	kept := s.pending[:0]
-	for _, r := range s.pending {
-		if r.Proc != id {
-			kept = append(kept, r)
-		}
-	}
-	s.pending = kept
 	s.mu.Unlock()
 	p.resume <- true
 	return s.Await(id)
 }
 
-// Await waits for the next report of process id.
+// news: an arrival or a return of p the driver has not been told about (s.mu held)
+func (s *Sched) news(p *proc) (Report, bool) {
+	if p.arrivals > p.seen {
+		p.seen = p.arrivals
+		return Report{Proc: p.id, Point: p.point, KV: p.kv}, true
+	}
+	if p.done && !p.doneSeen {
+		p.doneSeen = true
+		return Report{Proc: p.id, Returned: true, Panic: p.panicked}, true
+	}
+	return Report{}, false
+}
+
+// Await waits for process id to reach a yield point or to return.
 func (s *Sched) Await(id string) Report {
-	// look in queued reports first
 	s.mu.Lock()
-	q := s.pending
-	for i, r := range q {
-		if r.Proc == id {
-			s.pending = append(append([]Report{}, q[:i]...), q[i+1:]...)
+	d := s.Watchdog
+	s.mu.Unlock()
+	return s.await(id, d)
+}
+
+func (s *Sched) await(id string, d time.Duration) Report {
+	timer := time.NewTimer(d)
+	defer timer.Stop()
+	for {
+		s.mu.Lock()
+		p := s.procs[id]
+		if p == nil {
+			s.mu.Unlock()
+			return Report{Proc: id, Stuck: true}
+		}
+		if r, ok := s.news(p); ok {
 			s.mu.Unlock()
 			return r
 		}
-	}
-	s.mu.Unlock()
-	timer := time.NewTimer(s.Watchdog)
-	defer timer.Stop()
-	for {
+		s.mu.Unlock()
 		select {
-		case r := <-s.reports:
-			if r.Proc == id {
-				return r
-			}
-			s.mu.Lock()
-			s.pending = append(s.pending, r)
-			s.mu.Unlock()
+		case <-s.notify:
+		case <-time.After(200 * time.Microsecond):
 		case <-timer.C:
 			return Report{Proc: id, Stuck: true}
 		}
 	}
 }
 
-// TryAwait waits up to d for a report of process id (used to find out whether a
-// process that was blocked inside the implementation has been woken).
+// TryAwait waits up to d for process id (used to find out whether a process that
+// was blocked inside the implementation has been woken).
 func (s *Sched) TryAwait(id string, d time.Duration) (Report, bool) {
-	old := s.Watchdog
-	s.Watchdog = d
-	r := s.Await(id)
-	s.Watchdog = old
+	r := s.await(id, d)
 	return r, !r.Stuck
 }
 
@@ -298,7 +321,6 @@ func (s *Sched) Kill() {
 			p.parked = false
 		}
 	}
-	s.pending = nil
 	s.mu.Unlock()
 	for _, p := range parked {
 		select {
@@ -306,16 +328,4 @@ func (s *Sched) Kill() {
 		default:
 		}
 	}
-	// drain reports so that late senders do not block forever
-	go func() {
-		t := time.NewTimer(5 * time.Second)
-		defer t.Stop()
-		for {
-			select {
-			case <-s.reports:
-			case <-t.C:
-				return
-			}
-		}
-	}()
 }
